@@ -458,6 +458,169 @@ pub fn drive(log: &mut Log) {
         }
     }
 
+    // (g) dense sweep of log-differences across the region where exp() leaves the normal f64
+    // range (exp(-708.4) is the smallest normal, exp(-745.13) the smallest subnormal f64):
+    // d from -746 to -699 in steps of 0.05, plus the exact edges; every binary / n-ary
+    // operation in both argument orders, complement, and the conversion LogProb -> Prob
+    {
+        let mut ds: Vec<f64> = (0..=940).map(|i| -746.0 + 0.05 * i as f64).collect();
+        ds.extend_from_slice(&[-709.78, -709.79, -709.782_712_893_384, -710.0, -745.13, -745.14, -744.44, -708.39, -708.4]);
+        for chunk in ds.chunks(40) {
+            case += 1;
+            if !log.mine(case) {
+                continue;
+            }
+            let mut rng = Rng::new(seed, 21, case);
+            if !log.begin("sweep", json!({"kind": "ops"})) {
+                continue;
+            }
+            for &d in chunk {
+                let a = *rng.pick(&[0.0f64, -0.693_147_180_559_945_3, -3.7, -41.5]);
+                let b = a + d;
+                call_add(log, a, b);
+                call_add(log, b, a);
+                call_sub(log, a, b);
+                call_sum(log, &[b, a, b]);
+                call_sum(log, &[a, b]);
+                call_cumsum(log, &[b, a, b]);
+                call_complement(log, d);
+                let x9 = (d.exp() * UNIT9).round() as i64; // 0 everywhere in this region
+                log.call("l2p_at", json!({"x": x9}), || {
+                    let p = *Prob::from(LogProb(d));
+                    if p.is_nan() {
+                        json!({"v": -1, "nan": 1, "inf": 0})
+                    } else if p.is_infinite() {
+                        json!({"v": -1, "nan": 0, "inf": 1})
+                    } else {
+                        json!({"v": (p * UNIT9).round().max(-2.0e9).min(2.0e9) as i64, "nan": 0, "inf": 0})
+                    }
+                });
+                if d > -710.0 && d < -709.78 {
+                    log.oblige("exp_biased_exponent_minus_one");
+                }
+            }
+            log.oblige("exp_range_edge_sweep");
+        }
+    }
+
+    // (h) closed-form families with 10^5 .. 10^6 operands (never written down): one dominant
+    // element at position `pos` plus classes <<x, mult>>, x in units of 1e-9 of the dominant one
+    // (the harness builds lp = lp_dom + ln(x * 1e-9)); tail totals between 1 % and 60 % of the
+    // dominant element although every tail element is below 1.2e-7 of it
+    {
+        let lists: [(&[(i64, i64)], &str); 7] = [
+            (&[(41, 300_000)], "e-17 x 300000"),
+            (&[(118, 1_000_000)], "just below ln(f32 eps)"),
+            (&[(119, 500_000), (120, 400_000)], "around ln(f32 eps)"),
+            (&[(10, 999_999)], "1e-8 x 10^6"),
+            (&[(41, 100_000), (100, 200_000), (1, 50_000)], "three classes"),
+            (&[(500, 200_000), (41, 250_000)], "one class above the single precision ratio"),
+            (&[(100, 42_500)], "barely 0.4 %"),
+        ];
+        for (li, (cl, _what)) in lists.iter().enumerate() {
+            for posk in 0..3u64 {
+                case += 1;
+                if !log.mine(case) {
+                    continue;
+                }
+                if !log.opts.thorough() && (li as u64 + posk + seed) % 2 == 1 {
+                    continue; // quick: half of the (list, position) pairs, rotating with the seed
+                }
+                let mut rng = Rng::new(seed, 22, case);
+                if !log.begin("big", json!({"kind": "ops"})) {
+                    continue;
+                }
+                let ntail: i64 = cl.iter().map(|c| c.1).sum();
+                let n = ntail + 1;
+                let pos: i64 = match posk {
+                    0 => 1,
+                    1 => n,
+                    _ => 1 + rng.range(1, ntail - 1),
+                };
+                let lp_dom = *rng.pick(&[0.0f64, -0.693_147_180_559_945_3, -20.0, -300.0]);
+                let mut lps: Vec<LogProb> = Vec::with_capacity(n as usize);
+                for &(x, mult) in cl.iter() {
+                    let lp = lp_dom + (x as f64 * 1.0e-9).ln();
+                    for _ in 0..mult {
+                        lps.push(LogProb(lp));
+                    }
+                }
+                lps.insert((pos - 1) as usize, LogProb(lp_dom));
+                let cls: Vec<Value> = cl.iter().map(|c| json!([c.0, c.1])).collect();
+                log.call("bigsum", json!({"cl": cls.clone(), "pos": pos, "n": n}), || {
+                    fix(*LogProb::ln_sum_exp(&lps), lp_dom, UNIT)
+                });
+                let mut at: Vec<i64> = vec![1, pos - 1, pos, pos + 1, n / 2, n - 1, n];
+                at.retain(|&k| k >= 1 && k <= n);
+                at.sort();
+                at.dedup();
+                log.call("bigcumsum", json!({"cl": cls, "pos": pos, "n": n, "at": i64s(&at)}), || {
+                    let mut out: Vec<Value> = vec![];
+                    let mut next = 0usize;
+                    for (i, sres) in LogProb::ln_cumsum_exp(lps.iter().cloned()).enumerate() {
+                        if next < at.len() && (i as i64 + 1) == at[next] {
+                            out.push(fix(*sres, lp_dom, UNIT));
+                            next += 1;
+                        }
+                    }
+                    json!({"vs": Value::Array(out)})
+                });
+                log.oblige("more_than_42000_summands");
+            }
+        }
+        // integration grids with 10^5 .. 10^6 points: one peak cell on a piecewise constant floor
+        let grids: [(usize, i64, i64); 4] = [(1_000_001, 41, 41), (300_001, 118, 60), (100_001, 100, 119), (1_000_001, 10, 100)];
+        for (gi, &(n, x1, x2)) in grids.iter().enumerate() {
+            for rule in ["bigtrapz", "bigsimpson"].iter() {
+                case += 1;
+                if !log.mine(case) {
+                    continue;
+                }
+                if !log.opts.thorough() && (gi as u64 + seed + (*rule == "bigsimpson") as u64) % 2 == 1 {
+                    continue;
+                }
+                let mut rng = Rng::new(seed, 23, case);
+                if !log.begin("biggrid", json!({"kind": "ops"})) {
+                    continue;
+                }
+                let kp = match rng.below(4) {
+                    0 => 0,
+                    1 => n - 1,
+                    _ => rng.range(1, n as i64 - 2) as usize,
+                };
+                let h = rng.range(0, n as i64) as usize;
+                let peak_lp = *rng.pick(&[0.0f64, -2.0, -250.0]);
+                let step = 0.001f64;
+                let a = 0.0f64;
+                let b = step * (n as f64 - 1.0);
+                log.call(rule, json!({"n": n, "kp": kp, "h": h, "x1": x1, "x2": x2}), || {
+                    let mut ncalls: i64 = 0;
+                    let dens = |_i: usize, x: f64| {
+                        ncalls += 1;
+                        let k = ((x - a) / (b - a) * (n as f64 - 1.0)).round() as usize; // abscissa -> grid index
+                        if k == kp {
+                            LogProb(peak_lp)
+                        } else if k < h {
+                            LogProb(peak_lp + (x1 as f64 * 1.0e-9).ln())
+                        } else {
+                            LogProb(peak_lp + (x2 as f64 * 1.0e-9).ln())
+                        }
+                    };
+                    let (res, wtot) = if *rule == "bigtrapz" {
+                        (LogProb::ln_trapezoidal_integrate_exp(dens, a, b, n), 2.0 * (n as f64 - 1.0))
+                    } else {
+                        (LogProb::ln_simpsons_integrate_exp(dens, a, b, n), 3.0 * (n as f64 - 1.0))
+                    };
+                    // the weighted sum of the rule relative to the peak value
+                    let mut v = fix(*res - (b - a).ln() + wtot.ln(), peak_lp, UNIT);
+                    v["ncalls"] = json!(ncalls);
+                    v
+                });
+                log.oblige("grid_more_than_100000_points");
+            }
+        }
+    }
+
     // (f) accumulator chains: one LogProb value driven through add / sub / complement
     // (absolute scale; the machine layer of ProbAlgebra)
     for _ in 0..log.opts.n(200, 2000) {
